@@ -19,6 +19,8 @@
 package vm
 
 import (
+	stdErrors "errors"
+
 	"github.com/onflow/atree"
 
 	"github.com/onflow/cadence/bbq"
@@ -244,6 +246,12 @@ func (c *Context) IsTypeInfoRecovered(location common.Location) bool {
 	c.ensureProgramInitialized(location)
 	elaboration, err := c.ElaborationResolver(location)
 	if err != nil {
+		// A failure of the host (e.g. of loading the program) must be propagated,
+		// it must not be reported as a program which was not recovered.
+		var externalError errors.ExternalError
+		if stdErrors.As(err, &externalError) {
+			panic(err)
+		}
 		return false
 	}
 
